@@ -4,7 +4,7 @@
     [Extract Constant], no [Extract Inductive] of our own. *)
 From Coq Require Import Extraction ExtrOcamlBasic.
 From Muxide Require Import Model.Base Model.Annexb Model.Adts Model.Codec Model.Boxes Model.F64
-  Model.Writer Model.Api Model.Frag.
+  Model.Writer Model.Api Model.Frag Spec.Bmff Spec.Reader Spec.NalSplit Spec.Checks.
 Extraction Language OCaml.
 Extraction "../build/ocaml/model.ml"
   Base.len Base.be32 N.add N.mul N.div N.modulo N.eqb N.ltb N.leb N.of_nat N.to_nat N.shiftl N.lor
@@ -18,4 +18,7 @@ Extraction "../build/ocaml/model.ml"
   Codec.read_leb128 Codec.parse_obu_header Codec.obu_iter Codec.extract_av1_config Codec.is_av1_keyframe
   F64.decode64 F64.encode64 F64.tick
   Api.run_builder Api.build Api.step Api.run Api.sink_of Api.bstep Api.builder_new
-  Frag.new_with_fragment Frag.fmuxer_new Frag.fstep Frag.frun.
+  Frag.new_with_fragment Frag.fmuxer_new Frag.fstep Frag.frun
+  NalSplit.check_reframe NalSplit.spec_adts_payload NalSplit.spec_opus_valid NalSplit.spec_payloads
+  Checks.accepted Checks.check_C01 Checks.check_C02_mux Checks.check_init_structure
+  Checks.check_segment_structure Checks.check_C03.
